@@ -512,4 +512,9 @@ func c16(c *ctx) {
 	for i := 0; i < n/4; i++ {
 		c16wire(c, i)
 	}
+	if c.thorough() {
+		for i := 0; i < 20; i++ {
+			c16race(c, i)
+		}
+	}
 }
